@@ -401,6 +401,19 @@ func (w *lpmWorld) step() bool {
 		i := c.Choose(len(w.iters))
 		hi := w.iters[i]
 		n := 1 + c.Choose(3)
+		if c.Choose(3) == 0 {
+			// All on a held (possibly advanced) iterator yields what is left and leaves the iterator as it
+			// was: the Next calls below, and a second All, see the same elements again
+			for pass := 0; pass < 1+c.Choose(2); pass++ {
+				got := drainLPM(hi.it)
+				want := hi.expect[hi.pos:]
+				if fmtPVs(got) != fmtPVs(want) {
+					r.Violate("C13", "held-iterator", "%s: All() (read %d) on the iterator after %d Next calls yields %s, want %s", hi.what, pass+1, hi.pos, fmtPVs(got), fmtPVs(want))
+					return false
+				}
+			}
+			w.probes["held-iterator-all"]++
+		}
 		for j := 0; j < n; j++ {
 			k, v, ok := hi.it.Next()
 			if hi.pos >= len(hi.expect) {
